@@ -52,20 +52,21 @@ CONSTANTS
 
 Writers == 1..(N + (IF ConnErr THEN 1 ELSE 0))
 
-\* a plan is a sequence of steps; a write step says how the part relates to the 1 KiB buffer
+\* A plan is a sequence of steps; a write step says how the part relates to the 1 KiB buffer:
 \*   <<"w", "s">> small write (goes into the buffer)   <<"w", "b">> big write (flushes the buffer, then bypasses it)
 \*   <<"f">> flush
-Steps(p) ==
-    CASE p = "small"   -> << <<"w", "s">>, <<"w", "s">>, <<"f">> >>
-      [] p = "drop"    -> << <<"w", "s">>, <<"f">> >>
-      [] p = "big"     -> << <<"w", "s">>, <<"w", "b">>, <<"f">> >>
-      [] p = "chunked" -> << <<"w", "s">>, <<"w", "b">>, <<"w", "b">>, <<"w", "s">>, <<"f">> >>
-      [] p = "unused"  -> << >>
-      [] p = "raw2f"   -> << <<"w", "s">>, <<"f">>, <<"w", "s">>, <<"f">> >>
-      [] p = "raw2n"   -> << <<"w", "s">>, <<"w", "b">> >>
-      [] p = "raw1l"   -> << <<"w", "b">>, <<"f">> >>
-      [] p = "rawf1"   -> << <<"f">>, <<"w", "s">>, <<"f">> >>    \* flush before the first write
-      [] p = "err"     -> << <<"w", "s">> >>          \* 400/417: raw_print without flush, then the connection ends
+\* The named plans of the header comment:
+PSmall   == << <<"w", "s">>, <<"w", "s">>, <<"f">> >>
+PDrop    == << <<"w", "s">>, <<"f">> >>
+PBig     == << <<"w", "s">>, <<"w", "b">>, <<"f">> >>
+PChunked == << <<"w", "s">>, <<"w", "b">>, <<"w", "b">>, <<"w", "s">>, <<"f">> >>
+PUnused  == << >>
+PRaw2f   == << <<"w", "s">>, <<"f">>, <<"w", "s">>, <<"f">> >>
+PRaw2n   == << <<"w", "s">>, <<"w", "b">> >>
+PRaw1l   == << <<"w", "b">>, <<"f">> >>
+PRawf1   == << <<"f">>, <<"w", "s">>, <<"f">> >>    \* flush before the first write
+PErr     == << <<"w", "s">> >>                      \* 400/417: raw_print without flush, then the connection ends
+Steps(p) == p
 
 VARIABLES
     plan,     \* plan[r]
@@ -78,7 +79,7 @@ VARIABLES
 
 vars == <<plan, pc, turn, fin, buf, out, closed>>
 
-PlanOf(r) == IF r > N THEN "err" ELSE plan[r]
+PlanOf(r) == IF r > N THEN PErr ELSE plan[r]
 NSteps(r) == Len(Steps(PlanOf(r)))
 
 Init ==
@@ -172,7 +173,8 @@ NoDup == \A i, j \in 1..Len(Wire) : i # j => Wire[i] # Wire[j]
 EveryoneFinishes == <>AllDone
 \* C06 "no hold-up": after the last flushing plan has finished, everything before it has reached
 \* the socket (only un-flushed raw-writer bytes may stay in the buffer until the connection ends)
-FlushingPlan(p) == p \in {"small", "drop", "big", "chunked", "raw2f", "raw1l", "rawf1"}
+\* a plan whose last step is a flush
+FlushingPlan(p) == Len(p) > 0 /\ p[Len(p)] = <<"f">>
 NoHoldUp == AllDone =>
     \A r \in 1..N : FlushingPlan(plan[r]) => \A k \in 1..NParts(r) : \E i \in 1..Len(out) : out[i] = <<r, k>>
 \* C12: with an error response the connection closes after everything was written
